@@ -50,6 +50,14 @@ def exc_name(e):
     return type(e).__name__
 
 
+def sv(el):
+    """`.value` of an element as canonical JSON; a broken tree (raw values inside) may raise"""
+    try:
+        return vj(el.value)
+    except Exception as e:
+        return {"raises": exc_name(e)}
+
+
 # ------------------------------------------------------------------ schemas
 
 class Classes:
@@ -153,6 +161,7 @@ class Exec:
         self.failures = []
         self.steps = []
         self.root = None
+        self.nav_errors = []
 
     # -- identity labels
     def see(self, obj):
@@ -166,9 +175,15 @@ class Exec:
         return self.labels.get(id(obj), "?")
 
     # -- navigation through the public API
-    @staticmethod
-    def children(el):
-        return list(el.children)
+    def children(self, el):
+        from flatland.schema.base import Element
+        if not isinstance(el, Element):
+            return []          # a raw value stored where an element belongs: a leaf (the oracles flag it)
+        try:
+            return list(el.children)
+        except Exception as e:   # `.children` itself breaks on a container holding raw values
+            self.nav_errors.append(exc_name(e))
+            return []
 
     def reach(self, start=None):
         """queue walk through `.children`, start first; returns [(element, container)]"""
@@ -184,6 +199,9 @@ class Exec:
 
     @staticmethod
     def parents(el):
+        from flatland.schema.base import Element
+        if not isinstance(el, Element):
+            return []
         return list(itertools.islice(el.parents, CHAIN_BOUND))
 
     def observe(self):
@@ -395,9 +413,26 @@ class Exec:
         self.finish_step(info)
 
     def finish_step(self, info):
+        # Observing a tree that holds raw values / dangling links can itself raise inside flatland
+        # (e.g. `.value` of a Dict holding an int).  That is an observation, not a harness failure.
         if self.check is not None:
-            self.failures.extend(self.check(self, info) or [])
-        self.steps.append({"out": info["out"], "view": self.view(self, info)})
+            try:
+                self.failures.extend(self.check(self, info) or [])
+            except Exception as e:
+                import traceback
+                self.failures.append({"clause": "observation-raises", "expected": "the element API works on the tree",
+                                      "observed": exc_name(e), "step": info["i"], "op": info.get("op"),
+                                      "trace": traceback.format_exc()[-600:]})
+        try:
+            v = self.view(self, info)
+        except Exception as e:
+            v = {"view_raises": exc_name(e)}
+        if self.nav_errors:
+            self.failures.append({"clause": "children-navigable", "expected": "element.children iterates",
+                                  "observed": self.nav_errors[0], "step": info["i"], "op": info.get("op")})
+            v = {"view_raises": self.nav_errors[0]}
+            self.nav_errors = []
+        self.steps.append({"out": info["out"], "view": v})
 
     def step(self, i, o):
         info = {"i": i, "init": False, "target": None, "args": [], "op": None, "kind": None, "before": None}
